@@ -13,6 +13,7 @@ use tower::{Service, ServiceExt};
 #[cfg(feature = "hooks-crypto")]
 mod certs;
 mod hostile;
+mod routing;
 mod rawdial;
 
 fn peer(v: &Value) -> PeerId {
@@ -348,6 +349,116 @@ async fn rpc_pairing(a: &Value) -> Value {
     json!({"n": n, "mismatched": mismatched, "errors": errors, "max_handler_invocations_per_request": max_calls, "requests_handled": handled})
 }
 
+/// C09 on real networks: the application code serving one request of one peer panics.  Whatever the library does about it (drop that connection,
+/// shut the node down, carry on), afterwards the views must be mutual and every listed peer must be reachable by RPC, for every pair of nodes.
+async fn panicking_handler(_a: &Value) -> Value {
+    let svc = || tower::ServiceExt::boxed_clone(tower::service_fn(|r: Request<Bytes>| async move {
+        if r.body().starts_with(b"boom") { panic!("application bug while serving a request"); }
+        Ok::<_, std::convert::Infallible>(Response::new(r.into_body()))
+    }));
+    let node = |key: u8| {
+        let mut c = Config::default();
+        c.connect_timeout_ms = Some(3000);
+        let mut quic = anemo::QuicConfig::default();
+        quic.max_idle_timeout_ms = Some(1500);
+        quic.keep_alive_interval_ms = Some(300);
+        c.quic = Some(quic);
+        anemo::Network::bind("127.0.0.1:0").server_name("verif").private_key([key; 32]).config(c).start(svc()).expect("network")
+    };
+    std::panic::set_hook(Box::new(|_| {}));
+    let (a, b, c) = (node(91), node(92), node(93));
+    let bid = a.connect(b.local_addr()).await.expect("a->b");
+    let _ = c.connect(b.local_addr()).await.expect("c->b");
+    let _ = a.connect(c.local_addr()).await.expect("a->c");
+    tokio::time::sleep(Duration::from_millis(200)).await;
+    let boom = tokio::time::timeout(Duration::from_secs(3), a.rpc(bid, Request::new(Bytes::from_static(b"boom")))).await;
+    let boom_outcome = match boom { Err(_) => "no answer", Ok(Err(_)) => "error", Ok(Ok(_)) => "answered" };
+    // longer than the idle timeout
+    tokio::time::sleep(Duration::from_millis(2500)).await;
+    let nodes = [("a", &a), ("b", &b), ("c", &c)];
+    let mut views = Vec::new();
+    for (xn, x) in nodes.iter() {
+        for (yn, y) in nodes.iter() {
+            if xn == yn { continue; }
+            let x_lists_y = x.peers().contains(&y.peer_id());
+            let y_lists_x = y.peers().contains(&x.peer_id());
+            let reach = if x_lists_y { Some(matches!(tokio::time::timeout(Duration::from_secs(2), x.rpc(y.peer_id(), Request::new(Bytes::from_static(b"ping")))).await, Ok(Ok(_)))) } else { None };
+            views.push(json!({"x": xn, "y": yn, "x_lists_y": x_lists_y, "y_lists_x": y_lists_x, "x_reaches_y_by_rpc": reach, "x_closed": x.is_closed(), "y_closed": y.is_closed()}));
+        }
+    }
+    json!({"the_panicking_request": boom_outcome, "views": views})
+}
+
+fn fnv(b: &[u8]) -> u64 { let mut h: u64 = 0xcbf29ce484222325; for x in b { h ^= *x as u64; h = h.wrapping_mul(0x100000001b3); } h }
+/// C02 end to end on real networks that have BOTH default timeouts configured (so both timeout middlewares are in the path): requests with
+/// header maps of 0..300 entries (a `timeout` header longer and shorter than the defaults, mixed-case names, empty and long values) and bodies of
+/// 0..300000 bytes; the handler reports exactly what it received and answers with a status and a header map of the requested size.  The caller
+/// compares what the handler saw with what it sent, and what it got back with what the handler produced.
+async fn end_to_end_fidelity(_a: &Value) -> Value {
+    let svc = || tower::ServiceExt::boxed_clone(tower::service_fn(|r: Request<Bytes>| async move {
+        let mut seen: Vec<(String, String)> = r.headers().iter().map(|(k, v)| (k.clone(), v.clone())).collect();
+        seen.sort();
+        let report = json!({"route": r.route(), "headers": seen, "body_len": r.body().len(), "body_fnv": fnv(r.body())});
+        let status: u16 = r.headers().get("x-status").and_then(|s| s.parse().ok()).unwrap_or(200);
+        let n: usize = r.headers().get("x-resp-headers").and_then(|s| s.parse().ok()).unwrap_or(0);
+        let mut resp = Response::new(Bytes::from(serde_json::to_vec(&report).unwrap())).with_status(anemo::types::response::StatusCode::new(status).unwrap());
+        for i in 0..n { resp = resp.with_header(format!("H-{i}"), format!("v{i}")); }
+        Ok::<_, std::convert::Infallible>(resp)
+    }));
+    let node = |key: u8| {
+        let mut c = Config::default();
+        c.connect_timeout_ms = Some(3000);
+        c.outbound_request_timeout_ms = Some(10_000);
+        c.inbound_request_timeout_ms = Some(20_000);
+        anemo::Network::bind("127.0.0.1:0").server_name("verif").private_key([key; 32]).config(c).start(svc()).expect("network")
+    };
+    let (x, y) = (node(81), node(82));
+    let yid = x.connect(y.local_addr()).await.expect("connect");
+    let xid = x.peer_id();
+    for _ in 0..200 { if y.peers().contains(&xid) { break; } tokio::time::sleep(Duration::from_millis(5)).await; }
+    let mut cases: Vec<(usize, usize, Option<&str>, u16, usize)> = Vec::new();      // (request headers, body bytes, timeout header, status, response headers)
+    for nh in [0usize, 1, 8, 64, 65, 100, 300] { cases.push((nh, 10, None, 200, 0)); cases.push((3, 10, None, 200, nh)); }
+    for bl in [0usize, 1, 65_535, 65_536, 65_537, 300_000] { cases.push((2, bl, None, 200, 2)); }
+    for t in ["60000000000", "1000000000", "10000000000", "0", "soon", "18446744073709551615"] { cases.push((2, 10, Some(t), 200, 1)); }
+    for st in [400u16, 404, 408, 429, 500, 505, 520] { cases.push((2, 10, None, st, 70)); }
+    let mut bad = Vec::new();
+    let mut done = 0u32;
+    for (i, (nh, bl, timeout, status, rh)) in cases.iter().enumerate() {
+        for dir in 0..2 {
+            let (from, to) = if dir == 0 { (&x, yid) } else { (&y, xid) };
+            let body: Vec<u8> = (0..*bl).map(|k| (k * 31 + i) as u8).collect();
+            let mut req = Request::new(Bytes::from(body.clone())).with_route(format!("/case/{i}")).with_header("x-status", status.to_string()).with_header("x-resp-headers", rh.to_string());
+            for k in 0..*nh { req = req.with_header(match k % 4 { 0 => format!("Key-{k}"), 1 => format!("key-{k}"), 2 => format!("KEY_{k}"), _ => format!("k.{k}") }, if k % 5 == 0 { String::new() } else if k == 7 { "x".repeat(5000) } else { format!("value {k}") }); }
+            if let Some(t) = timeout { req = req.with_header("timeout", t.to_string()); }
+            if *timeout == Some("0") || *timeout == Some("soon") { continue; }    // (an immediate or unparsable deadline is C11's business: the call may legitimately fail)
+            let mut sent: Vec<(String, String)> = req.headers().iter().map(|(k, v)| (k.clone(), v.clone())).collect();
+            sent.sort();
+            let r = tokio::time::timeout(Duration::from_secs(8), from.rpc(to, req)).await;
+            done += 1;
+            let why = match r {
+                Err(_) => Some("no answer within 8 s".to_owned()),
+                Ok(Err(e)) => Some(format!("error: {e}")),
+                Ok(Ok(resp)) => {
+                    let rep: Value = serde_json::from_slice(resp.body()).unwrap_or(Value::Null);
+                    let seen: Vec<(String, String)> = rep["headers"].as_array().map(|v| v.iter().map(|p| (p[0].as_str().unwrap_or("").to_owned(), p[1].as_str().unwrap_or("").to_owned())).collect()).unwrap_or_default();
+                    let mut got_h: Vec<(String, String)> = resp.headers().iter().map(|(k, v)| (k.clone(), v.clone())).collect();
+                    got_h.sort();
+                    let mut want_h: Vec<(String, String)> = (0..*rh).map(|k| (format!("H-{k}"), format!("v{k}"))).collect();
+                    want_h.sort();
+                    if resp.status().to_u16() != *status { Some(format!("status {} instead of {}", resp.status().to_u16(), status)) }
+                    else if rep["route"].as_str() != Some(format!("/case/{i}").as_str()) { Some("the handler saw another route".to_owned()) }
+                    else if seen != sent { Some(format!("the handler saw {} request headers, {} were sent; first difference: {:?}", seen.len(), sent.len(), seen.iter().zip(sent.iter()).find(|(a, b)| a != b).map(|(a, b)| (a.0.clone(), a.1.chars().take(40).collect::<String>(), b.0.clone(), b.1.chars().take(40).collect::<String>())))) }
+                    else if rep["body_len"].as_u64() != Some(*bl as u64) || rep["body_fnv"].as_u64() != Some(fnv(&body)) { Some("the handler saw another body".to_owned()) }
+                    else if got_h != want_h { Some(format!("the caller received {} response headers, the handler produced {}", got_h.len(), want_h.len())) }
+                    else { None }
+                }
+            };
+            if let Some(w) = why { if bad.len() < 4 { bad.push(json!({"case": {"request_headers": nh, "body_bytes": bl, "timeout_header": timeout, "status": status, "response_headers": rh, "direction": if dir == 0 { "dialer to listener" } else { "listener to dialer" }}, "why": w})); } }
+        }
+    }
+    json!({"calls": done, "bad": bad})
+}
+
 /// C06 / C07 on the real decoders: a bounded exhaustive sweep of byte strings offered to read_request / read_response
 /// (every header frame of length 0..=5 over a 4-letter alphabet, with and without a body frame; every truncation and every
 /// single-byte corruption of two valid messages; huge length prefixes).  No input may panic; Ok only where the layout allows it.
@@ -418,6 +529,56 @@ async fn oversize_confined(a: &Value) -> Value {
     json!({"oversized_rpc_failed": failed, "hung": hung, "still_connected": still, "followup_ok": follow_ok, "elapsed_ms": t0.elapsed().as_millis() as u64})
 }
 
+/// C05 / C04 on real networks: a mutual dial while requests are still in flight on the connection that may be replaced (sent through
+/// Network::rpc, in either or both directions).  Whatever happens to those requests, afterwards both sides list each other exactly once,
+/// RPCs work both ways, and each side's event stream replays to its listing.
+async fn mutual_dial_inflight(_args: &Value) -> Value {
+    let slow_echo = || tower::ServiceExt::boxed_clone(tower::service_fn(|r: Request<Bytes>| async move {
+        if r.body().starts_with(b"slow") { tokio::time::sleep(Duration::from_millis(700)).await; }
+        Ok::<_, std::convert::Infallible>(Response::new(r.into_body()))
+    }));
+    let node = |key: u8| {
+        let mut c = Config::default();
+        c.connect_timeout_ms = Some(3000);
+        anemo::Network::bind("127.0.0.1:0").server_name("verif").private_key([key; 32]).config(c).start(slow_echo()).expect("network")
+    };
+    let mut runs = Vec::new();
+    for (kf, ks) in [(1u8, 2u8), (2, 1)] {
+        for inflight in 0..4u8 {
+            let first = node(kf); let second = node(ks);
+            let (mut rx_f, snap_f) = first.subscribe().expect("subscribe");
+            let (mut rx_s, snap_s) = second.subscribe().expect("subscribe");
+            let r1 = first.connect(second.local_addr()).await;
+            for _ in 0..100 { if second.peers().contains(&first.peer_id()) { break; } tokio::time::sleep(Duration::from_millis(10)).await; }
+            let mut pending = Vec::new();
+            if inflight & 1 != 0 { let (n, to) = (second.clone(), first.peer_id()); pending.push(tokio::spawn(async move { n.rpc(to, Request::new(Bytes::from_static(b"slow-1"))).await.is_ok() })); }
+            if inflight & 2 != 0 { let (n, to) = (first.clone(), second.peer_id()); pending.push(tokio::spawn(async move { n.rpc(to, Request::new(Bytes::from_static(b"slow-2"))).await.is_ok() })); }
+            tokio::time::sleep(Duration::from_millis(100)).await;
+            let r2 = second.connect(first.local_addr()).await;
+            let mut inflight_ok = Vec::new();
+            for p in pending { inflight_ok.push(tokio::time::timeout(Duration::from_secs(5), p).await.map(|r| r.unwrap_or(false)).ok()); }
+            let (mut fs, mut sf) = (false, false);
+            for _ in 0..60 {
+                tokio::time::sleep(Duration::from_millis(50)).await;
+                fs = first.rpc(second.peer_id(), Request::new(Bytes::from_static(b"x"))).await.is_ok();
+                sf = second.rpc(first.peer_id(), Request::new(Bytes::from_static(b"x"))).await.is_ok();
+                if fs && sf && first.peers().iter().filter(|p| **p == second.peer_id()).count() == 1 && second.peers().iter().filter(|p| **p == first.peer_id()).count() == 1 { break; }
+            }
+            tokio::time::sleep(Duration::from_millis(150)).await;
+            let (mut ev_f, mut ev_s) = (Vec::new(), Vec::new());
+            while let Ok(e) = rx_f.try_recv() { ev_f.push(ev(&e)); }
+            while let Ok(e) = rx_s.try_recv() { ev_s.push(ev(&e)); }
+            runs.push(json!({"first_key": kf, "second_key": ks, "in_flight_from_second": inflight & 1 != 0, "in_flight_from_first": inflight & 2 != 0,
+                "first_dial_ok": r1.is_ok(), "dial_back_ok": r2.is_ok(), "in_flight_results": inflight_ok,
+                "first_lists_second": first.peers().iter().filter(|p| **p == second.peer_id()).count(), "second_lists_first": second.peers().iter().filter(|p| **p == first.peer_id()).count(),
+                "rpc_first_to_second": fs, "rpc_second_to_first": sf,
+                "first": {"snapshot": snap_f.iter().map(|p| p.0[0]).collect::<Vec<u8>>(), "events": ev_f, "listing": first.peers().iter().map(|p| p.0[0]).collect::<Vec<u8>>()},
+                "second": {"snapshot": snap_s.iter().map(|p| p.0[0]).collect::<Vec<u8>>(), "events": ev_s, "listing": second.peers().iter().map(|p| p.0[0]).collect::<Vec<u8>>()}}));
+        }
+    }
+    json!({"runs": runs})
+}
+
 fn ev(e: &anemo::types::PeerEvent) -> Value {
     match e {
         anemo::types::PeerEvent::NewPeer(p) => json!({"new": p.0[0]}),
@@ -478,7 +639,7 @@ async fn history(args: &Value) -> Value {
 
 fn main() {
     let args: Vec<String> = std::env::args().collect();
-    let multi = matches!(args.get(1).map(|s| s.as_str()), Some("admission") | Some("default_timeouts") | Some("rpc_pairing") | Some("history") | Some("oversize_confined") | Some("hostile_streams") | Some("network_names") | Some("claimed_name_grid") | Some("stolen_certificate") | Some("identity_claims_in_headers") | Some("header_only_deadline") | Some("hostile_requests"));
+    let multi = matches!(args.get(1).map(|s| s.as_str()), Some("admission") | Some("default_timeouts") | Some("rpc_pairing") | Some("history") | Some("oversize_confined") | Some("hostile_streams") | Some("network_names") | Some("claimed_name_grid") | Some("stolen_certificate") | Some("panicking_handler") | Some("end_to_end_fidelity") | Some("mutual_dial_inflight") | Some("identity_claims_in_headers") | Some("header_only_deadline") | Some("hostile_requests"));
     let rt = if multi {
         tokio::runtime::Builder::new_multi_thread().worker_threads(2).enable_all().build().unwrap()
     } else {
@@ -610,6 +771,10 @@ async fn run(args: Vec<String>) {
         "identity_claims_in_headers" => hostile::identity_claims_in_headers(&a).await,
         "header_only_deadline" => hostile::header_only_deadline(&a).await,
         "hostile_requests" => hostile::hostile_requests(&a).await,
+        "routing_table" => routing::routing_table(&a).await,
+        "mutual_dial_inflight" => mutual_dial_inflight(&a).await,
+        "end_to_end_fidelity" => end_to_end_fidelity(&a).await,
+        "panicking_handler" => panicking_handler(&a).await,
         "hostile_streams" => hostile::hostile_streams(&a).await,
         // several messages written in ONE process, one after the other (state kept between calls would show)
         #[cfg(feature = "hooks-wire")]
